@@ -55,6 +55,7 @@ NoRecomp == {{}}
 SomeRecomp == {{}, {1}, {0, 3}}
 \* extra events with stray Unplug notices (1000*session + period; only those that fit the scenario are enabled, see ExtraOK)
 StrayRecomp == {{}, {1}, {0, 3}, {1003}, {1004}, {2004}, {1005, 1}, {2005}, {1003, 2004}}
+SmallStray == {{}, {1}, {0, 3}, {1003}}      \* exhaustive model checking (thorough tier): one stray notice
 StrayWide == {{}, {1}, {0, 3}, {7, 15}, {19}, {1009}, {2012}, {3010, 5}, {1006, 2007}, {4015}}
 
 ReqSmall == {8320, 50000}
